@@ -675,6 +675,8 @@ def _stencil_path(prog: Program, res: Result, env0, fi, q, eng, f):
             inner = defs[node.func.id]
             if isinstance(inner, ast.Call) and attr_chain(inner.func) == "interp1d" and len(inner.args) >= 2:
                 return ("interp", ast.unparse(inner.args[0]), ast.unparse(inner.args[1]), root(node.args[0], depth + 1))
+        if isinstance(node, ast.Call) and isinstance(node.func, ast.Call) and attr_chain(node.func.func) == "interp1d" and len(node.func.args) >= 2 and node.args:
+            return ("interp", ast.unparse(node.func.args[0]), ast.unparse(node.func.args[1]), root(node.args[0], depth + 1))  # interp1d(xs, ys)(grid)
         if isinstance(node, ast.Call) and attr_chain(node.func) in ("np.linspace", "numpy.linspace"):
             return ("linspace", tuple(ast.unparse(a) for a in node.args))
         return ("expr", ast.unparse(node))
